@@ -43,6 +43,37 @@ def make_tok(cfg, cache=True):
     return t
 
 
+def rejected_constructor(cfg, kind):
+    """a constructor call with (nearly) the configuration `cfg` that the tokeniser is expected to reject; returns True if it raised"""
+    from scoda.tokenisation.notelike_tokenisation import MultiTrackLargeVocabularyNotelikeTokeniser as Tok
+    kw = dict(num_tracks=cfg["tracks"], pitch_range=tuple(cfg["pitch"]), velocity_bins=cfg["bins"], ppqn=cfg.get("ppqn"),
+              time_signature_range=tuple(cfg.get("tsr") or (2, 16)),
+              flag_running_values=cfg["flags"][0], flag_fuse_track=cfg["flags"][1], flag_fuse_value=cfg["flags"][2],
+              flag_fuse_velocity=cfg["flags"][3], flag_simplify_time_signature=cfg.get("simplify", True))
+    if cfg["steps"]:
+        kw["step_sizes"] = list(cfg["steps"])
+    if cfg["values"]:
+        kw["note_values"] = list(cfg["values"])
+    if kind == "float_pitch_range":
+        kw["pitch_range"] = tuple(float(x) for x in kw["pitch_range"])
+    elif kind == "float_signature_range":
+        kw["time_signature_range"] = (kw["time_signature_range"][0], float(kw["time_signature_range"][1]))
+    elif kind == "float_tracks":
+        kw["num_tracks"] = float(kw["num_tracks"])
+    elif kind == "no_running_time_signature":
+        kw["flag_running_time_signature"] = False
+    elif kind == "none_pitch_range":
+        kw["pitch_range"] = (kw["pitch_range"][0], None)
+    try:
+        Tok(**kw)
+        return False
+    except Exception:
+        return True
+
+
+REJECTED_CONSTRUCTORS = ["float_pitch_range", "float_signature_range", "float_tracks", "no_running_time_signature", "none_pitch_range"]
+
+
 def rand_cfg(rng, i=None, small_vocab=True, bins=None):
     flags = [bool((i >> b) & 1) for b in range(4)] if i is not None else [rng.random() < 0.5 for _ in range(4)]
     pitch = rng.choice(PITCHRANGES)
